@@ -44,7 +44,7 @@ def main():
                 res = None
             per_seed[sd] = res
         first = per_seed[seeds[0]]
-        if first is not None:
+        if first is not None and "--no-write" not in sys.argv:
             m["caught_by"] = {c: v["keys"] for c, v in first.items() if v["exit"] == 1}
             m["missed_by"] = [c for c, v in first.items() if v["exit"] != 1]
             m["checks_run"] = ("tools/try_mutant.py seeded/%s/patch.diff %s   (git apply to the tree; ./check <id> --tier quick, "
